@@ -153,7 +153,7 @@ func (e *event) toJepsenLogEntry() string {
 		panic("unknown eventResult")
 	}
 
-	return fmt.Sprintf("INFO  jepsen.util - %-4d%-8s%-8s%s\n", e.id, r, t, v)
+	return fmt.Sprintf("INFO  jepsen.util - %-4d %-8s%-8s%s\n", e.id, r, t, v)
 }
 
 const (
